@@ -58,6 +58,9 @@ const (
 	NSock = 9
 )
 
+// StreamKey: the reverse proxy upstream that is a real (harness) WebSocket backend.
+const StreamKey = 6
+
 // SockID: the socket a listen token names.
 func SockID(t int) int {
 	if t >= NAddr {
@@ -202,7 +205,9 @@ func parseMod(s string) (Mod, bool) {
 	}
 	f, ok1 := atoi(p[0])
 	k, ok2 := atoi(p[1])
-	if !ok1 || !ok2 || f > 4 || k >= 8 {
+	// fault 5 exists only for reverse proxy key 6 (StreamKey): not a provisioning fault — when the
+	// configuration ends, an upgraded stream through the handler is open and closing it FAILS
+	if !ok1 || !ok2 || (f > 4 && !(f == 5 && k == StreamKey)) || k >= 8 {
 		return Mod{}, false
 	}
 	return Mod{f, k}, true
@@ -257,6 +262,19 @@ func parseApp(s string) (App, bool) {
 		if g.Key >= 4 && (n != 3 || g.Fault == 1) {
 			return App{}, false
 		}
+	}
+	// the stuck stream is opened through a TCP listener of the app; one such handler per app
+	ns, tcp := 0, false
+	for _, g := range m {
+		if g.Fault == 5 {
+			ns++
+		}
+	}
+	for _, a := range l {
+		tcp = tcp || a < NAddr
+	}
+	if ns > 1 || (ns == 1 && !tcp) {
+		return App{}, false
 	}
 	return App{n, t, f, l, m}, true
 }
